@@ -321,6 +321,27 @@ func specHasProp(s *vc.UnitSpec, p string) bool {
 			return true
 		}
 	}
+	for _, l := range s.Loops {
+		for _, c := range l.Invariants {
+			if hasProp(c.Props, p) {
+				return true
+			}
+		}
+	}
+	for _, l := range s.ClosureLoops {
+		for _, c := range l.Invariants {
+			if hasProp(c.Props, p) {
+				return true
+			}
+		}
+	}
+	for _, at := range s.Ats {
+		for _, c := range at.Clauses {
+			if hasProp(c.Props, p) {
+				return true
+			}
+		}
+	}
 	return false
 }
 
